@@ -5,7 +5,11 @@ import (
 	"fmt"
 	"strings"
 
+	"github.com/nspcc-dev/neo-go/pkg/core/transaction"
+	"github.com/nspcc-dev/neo-go/pkg/util"
+
 	"verif/harness/runner"
+	"verif/harness/world"
 )
 
 // per-name ownership history for the "former owner / former admin" roles
@@ -129,8 +133,28 @@ func runC11(b *runner.Batch) {
 	// a fourth user so that strangers always exist
 	r := b.Rng
 	h := &hist{formerOwner: map[string][]byte{}, formerAdmin: map[string][]byte{}}
+	scopedFunded := map[util.Uint160]bool{}
 	run := func(o *nnsOp, users []int, committee, alphabet, member bool, role string) *opResult {
 		s, w := e.signerSet(users, committee, alphabet, member)
+		if role != "setup" && len(s) > 0 && r.IntN(8) == 0 {
+			// the same keys sign, but with scopes that do not reach the call (None; restricted to another contract); the
+			// first of them sends the transaction and pays for it. Nobody witnesses then (seeded change C11-11: the
+			// transaction's sender taken for the owner's witness)
+			for i := range s {
+				if i%2 == 0 {
+					s[i] = world.Scoped(s[i].S, transaction.None)
+				} else {
+					s[i] = world.Scoped(s[i].S, transaction.CustomContracts, e.w.GAS)
+				}
+			}
+			if !scopedFunded[s[0].Account()] {
+				e.w.FundGAS(s[0].Account(), 1000_0000_0000)
+				scopedFunded[s[0].Account()] = true
+			}
+			s[0].Sends = true
+			w = wits{accounts: map[string]bool{}, desc: w.desc + " (signing with scopes that do not reach the call)"}
+			role += "-scoped-away"
+		}
 		res := e.exec(o, s, w)
 		out := "refused"
 		if res.r.Halted() && res.expect == "ok" {
